@@ -15,6 +15,33 @@ HINT_KEYS_POOL = [501, 502, 503]
 FC_KEYS_POOL = [901, 902, 903]
 
 
+# ------------------------------------------------------------------ abstract keys -> concrete key numbers
+# The specification uses a handful of abstract keys (1, 2, 3 / 501.. / 901..). Every replayed state maps them, by seed, to concrete key numbers of the
+# same class including the boundaries of the documented ranges (499, 500, 900, 901, 999, 2000, 2499), so that range slips show up in C04-C07 too.
+KEY_ALTERNATIVES = {1: [1, 1, 499, 2000], 2: [2, 2, 2499, 17], 3: [3, 250, 2001], 501: [501, 501, 500, 900], 502: [502, 899, 600], 503: [503, 777, 890],
+                    901: [901, 901, 999], 902: [902, 998, 950], 903: [903, 936, 987]}
+_KM = {}          # current mapping abstract -> concrete (identity when empty)
+_KM_INV = {}
+
+
+def set_keymap(rng=None):
+    _KM.clear()
+    _KM_INV.clear()
+    if rng is not None:
+        for k, alts in KEY_ALTERNATIVES.items():
+            c = rng.choice(alts)
+            _KM[k] = c
+            _KM_INV[c] = k
+
+
+def conc(k):
+    return _KM.get(k, k)
+
+
+def abst(k):
+    return _KM_INV.get(k, k)
+
+
 # ------------------------------------------------------------------ abstract trees (as in Eval.tla)
 def is_leaf(t):
     return t[0] == "leaf"
@@ -57,9 +84,9 @@ def render(t, rng=None, top=True):
     (unspecified) grouping of same-operator runs; operator spelling / whitespace / redundant outer brackets vary with rng."""
     import ahb
     if is_leaf(t):
-        s = f"[{t[2]}]"
+        s = f"[{conc(t[2])}]"
         if rng is not None and rng.random() < 0.15:
-            s = f"[ {t[2]} ]"
+            s = f"[ {conc(t[2])} ]"
         return s
     l = render(t[1], rng, False)
     r = render(t[2], rng, False)
@@ -90,7 +117,7 @@ def render_minimal(t, rng):
     Spellings are mixed freely (letters in both cases and symbols in one expression)."""
     import ahb
     if is_leaf(t):
-        return f"[{t[2]}]"
+        return f"[{conc(t[2])}]"
     parts = []
     for c in (t[1], t[2]):
         s = render_minimal(c, rng)
@@ -150,7 +177,7 @@ def real_fc_ast(expr):
         if n[0] == "leaf":
             if n[1] != "key" or not (901 <= int(n[2]) <= 999):
                 raise ValueError(f"leaf {n} is not a format-constraint key")
-            return ("fc", int(n[2]))
+            return ("fc", abst(int(n[2])))
         if n[0] not in ("and", "or", "xor"):
             raise ValueError(f"operator {n[0]} not allowed")
         return (n[0], conv(n[1]), conv(n[2]))
@@ -163,8 +190,8 @@ async def eval_real(expr, asg, fc=None, hint_keys=()):
     import ahb
     from ahbicht.expressions import InvalidExpressionError
     from ahbicht.expressions.requirement_constraint_expression_evaluation import requirement_constraint_evaluation
-    ahb.set_cer_values(rc=asg, fc=fc if fc is not None else {k: True for k in FC_KEYS_POOL},
-                       hints={k: ahb.hint_text(k) for k in HINT_KEYS_POOL})
+    ahb.set_cer_values(rc={conc(k): v for k, v in asg.items()}, fc={conc(k): v for k, v in (fc if fc is not None else {k: True for k in FC_KEYS_POOL}).items()},
+                       hints={conc(k): ahb.hint_text(k) for k in HINT_KEYS_POOL})
     try:
         r = await requirement_constraint_evaluation(expr)
     except InvalidExpressionError:
@@ -189,13 +216,22 @@ def tree_entry_point(expr, asg):
     from ahbicht.models.condition_nodes import Hint, RequirementConstraint, UnevaluatedFormatConstraint
     nodes = {}
     for k, v in asg.items():
-        nodes[str(k)] = RequirementConstraint(condition_key=str(k), conditions_fulfilled=ahb.ST[v])
+        nodes[str(conc(k))] = RequirementConstraint(condition_key=str(conc(k)), conditions_fulfilled=ahb.ST[v])
     for k in HINT_KEYS_POOL:
-        nodes[str(k)] = Hint(condition_key=str(k), hint=ahb.hint_text(k))
+        nodes[str(conc(k))] = Hint(condition_key=str(conc(k)), hint=ahb.hint_text(k))
     for k in FC_KEYS_POOL:
-        nodes[str(k)] = UnevaluatedFormatConstraint(condition_key=str(k))
+        nodes[str(conc(k))] = UnevaluatedFormatConstraint(condition_key=str(conc(k)))
+    tree = parse_condition_expression_to_tree(expr)
+    # the SAME tree object is first evaluated under a different assignment: evaluation must not leave anything behind in the caller's tree
+    other = dict(nodes)
+    for k, v in asg.items():
+        other[str(conc(k))] = RequirementConstraint(condition_key=str(conc(k)), conditions_fulfilled=ahb.ST[{"F": "U", "U": "K", "K": "F"}[v]])
     try:
-        r = evaluate_requirement_constraint_tree(parse_condition_expression_to_tree(expr), nodes)
+        evaluate_requirement_constraint_tree(tree, other)
+    except (InvalidExpressionError, NotImplementedError):
+        pass
+    try:
+        r = evaluate_requirement_constraint_tree(tree, nodes)
     except InvalidExpressionError:
         return "invalid"
     except NotImplementedError:
@@ -206,7 +242,7 @@ def tree_entry_point(expr, asg):
 async def fc_eval_real(expr, b):
     import ahb
     from ahbicht.expressions.format_constraint_expression_evaluation import format_constraint_evaluation
-    ahb.set_cer_values(rc={}, fc=b, hints={})
+    ahb.set_cer_values(rc={}, fc={conc(k): v for k, v in b.items()}, hints={})
     r = await format_constraint_evaluation(expr)
     return r.format_constraints_fulfilled, r.error_message
 
@@ -245,8 +281,9 @@ async def check_state(mode, state, idx, acc, sd):
     asg = asg_of(state)
     err = None if state["err"] == "nil" else state["err"]
     rng = random.Random(sd * 1000003 + idx)
+    set_keymap(rng if rng.random() < 0.5 else None)
     expr = render(tree, rng)
-    case = {"expr": expr, "tree": tree, "asg": asg, "spec_err": err}
+    case = {"expr": expr, "tree": tree, "asg": asg, "spec_err": err, "keymap": dict(_KM)}
     got = await eval_real(expr, asg)
     acc.count("evaluations")
     nontrivial = not is_leaf(tree)
@@ -342,10 +379,10 @@ async def check_validity_entry_points(expr, tree, asg, err, acc, case, rng):
     mark = rng.choice(["Muss", "M", "Soll", "s", "Kann", "k", "X", "u"])
     variants = [f"{mark} {expr}"]
     if mark not in ("X", "u"):
-        variants.append(f"Muss [2] {mark} {expr}")       # [2] takes every state over the enumerated assignments
-        variants.append(f"{mark} {expr} Kann [1]")
+        variants.append(f"Muss [{conc(2)}] {mark} {expr}")       # [2] takes every state over the enumerated assignments
+        variants.append(f"{mark} {expr} Kann [{conc(1)}]")
     for ahb_expr in variants:
-        ahb.set_cer_values(rc=asg, fc={k: True for k in FC_KEYS_POOL}, hints={k: ahb.hint_text(k) for k in HINT_KEYS_POOL})
+        ahb.set_cer_values(rc={conc(k): v for k, v in asg.items()}, fc={conc(k): True for k in FC_KEYS_POOL}, hints={conc(k): ahb.hint_text(k) for k in HINT_KEYS_POOL})
         try:
             t = await parse_expression_including_unresolved_subexpressions(ahb_expr)
             await evaluate_ahb_expression_tree(t)
@@ -614,6 +651,7 @@ def in_generator_domain(events):
 def record_runs(exprs_with_asg):
     """-> list of traces (dict id/asg/events/expr) recorded from the real transformer"""
     import ahb
+    set_keymap(None)
     ahb.configure()
     from ahbicht.expressions import InvalidExpressionError
     from ahbicht.expressions.requirement_constraint_expression_evaluation import requirement_constraint_evaluation
